@@ -608,6 +608,7 @@ def exist := 17
 def notdir := 20
 def isdir := 21
 def inval := 22
+def io := 5
 def stale := 70
 def delay := 10008
 def denied := 10010
@@ -674,7 +675,7 @@ inductive Op
   /-- READ (kind 0) / WRITE (1) / SETATTR (2) until the leaf is called -/
   | ioA (tag q sid sseq fh kind : Nat)
   /-- … and its cleanup -/
-  | ioB (tag : Nat)
+  | ioB (tag fault : Nat)
   | putfh (fh : Nat)
   | unlink (dir name : Nat)
 deriving Repr, Inhabited
@@ -996,8 +997,8 @@ def deniedStr (s : State) (c : BRL.Lock) : String :=
 /-- `OpenedFile.Lock` / `OpenedFilesPool.TestLock`: status and conflicting lock. -/
 def tryLock (s : State) (file owner ty off len : Nat) : Nat × Option BRL.Lock × Option BRL.Lock :=
   match LockRange.offsetLengthToStartEnd off len with
-  | none => (St.inval, none, none)
-  | some (a, b) =>
+  | .error st => (st, none, none)
+  | .ok (a, b) =>
     match lockTy ty with
     | none => (St.inval, none, none)
     | some t =>
@@ -1057,7 +1058,7 @@ def opTag : Op → Nat
   | .open41a tag .. => tag
   | .open41b tag => tag
   | .ioA tag .. => tag
-  | .ioB tag => tag
+  | .ioB tag _ => tag
   | _ => 0
 
 /-- The plan of one operation segment. -/
@@ -1623,8 +1624,8 @@ def planOp (op : Op) : PlanM Unit := do
                   if r.st != St.ok then fin r.st s!"st={r.st}" 0 0
                   else
                     match LockRange.offsetLengthToStartEnd off len with
-                    | none => fin St.inval s!"st={St.inval}" 0 0
-                    | some (a, b) =>
+                    | .error st => fin st s!"st={st}" 0 0
+                    | .ok (a, b) =>
                       emit (.lockSet f0.sid lsid ⟨a, b, lo.id, .unlocked⟩)
                       let n := nextSeq (seqOf s lsid)
                       setSeq lsid n
@@ -1637,8 +1638,8 @@ def planOp (op : Op) : PlanM Unit := do
         if r.st != St.ok then status r.st
         else
           match LockRange.offsetLengthToStartEnd off len with
-          | none => status St.inval
-          | some (a, b) =>
+          | .error st => status st
+          | .ok (a, b) =>
             emit (.lockSet f.sid lsid ⟨a, b, l.lo, .unlocked⟩)
             let n := nextSeq (seqOf s lsid)
             setSeq lsid n
@@ -1712,18 +1713,21 @@ def planOp (op : Op) : PlanM Unit := do
         say "go"
       | (st, none) => status st
       if v40 then flushAll
-  | .ioB tag =>
+  | .ioB tag fault =>
+    -- the leaf's VirtualRead / VirtualWrite / VirtualSetAttributes returned (with an error when
+    -- `fault ≠ 0`: NFS4ERR_IO); whatever was acquired for the I/O is given back either way
+    let res := if fault == 0 then St.ok else St.io
     let s ← cur
     if s.proto.otx.any (fun t => t.1 == tag) then
       modProto fun p => { p with otx := p.otx.filter (fun t => t.1 != tag) }
-      status St.ok
+      status res
     else if (s.getTemp tag).isSome then
       emit (.tempClose tag)
-      status St.ok
+      status res
     else
       if v40 then enter
       emit (.ioEnd tag)
-      status St.ok
+      status res
       flushAll
   | .putfh fh =>
     let s ← cur
